@@ -219,9 +219,13 @@ class C13(Check):
                 return ("garbage", "processed activations do not match the delivered ones")
             for d in sorted(union):
                 src, ann = recv[d][0]
+                if ann >> nout:
+                    return ("spurious-output", "rank %d is announced an output that does not exist (mask %d)" % (d, ann))
                 for k in range(nout):
                     if (ann >> k) & 1 and d not in sets[k]:
                         return ("spurious-output", "output %d announced to rank %d which does not consume it" % (k, d))
+                    if (ann >> k) & 1 and src != root and src not in sets[k]:
+                        return ("announced-not-held", "relay %d announces output %d to rank %d but never holds it" % (src, k, d))
                 for k in range(nout):
                     if d in sets[k] and not (ann >> k) & 1:
                         if src != root and src not in sets[k]:
